@@ -6,12 +6,12 @@ package main
 import (
 	"crypto/sha1"
 	"encoding/hex"
-	"regexp"
-	"sync"
 	"fmt"
 	"math"
 	"reflect"
+	"regexp"
 	"strings"
+	"sync"
 	"time"
 
 	ap "github.com/go-ap/activitypub"
